@@ -79,6 +79,12 @@ func (p *JSONParser) Parse(jsonString string) (payload *core.Payload, err error)
 		)
 	}
 
+	// NOTE: the proto JSON decoder resolves a oneof given more than one alternative by iterating
+	// over a Go map, hence differently from run to run. Such documents are refused.
+	if hasAmbiguousFeeType(jsonData) {
+		return nil, core.ErrParsingPayload.Wrap("fee info contains more than one fee type")
+	}
+
 	pw := core.PayloadWrapper{}
 	err = types.UnmarshalJSON(p.cdc, []byte(jsonString), &pw)
 	if err != nil {
@@ -89,4 +95,31 @@ func (p *JSONParser) Parse(jsonString string) (payload *core.Payload, err error)
 	}
 
 	return pw.Orbiter, nil
+}
+
+// hasAmbiguousFeeType returns true if any JSON object nested in the value carries
+// both alternatives of the fee type oneof.
+func hasAmbiguousFeeType(value any) bool {
+	switch v := value.(type) {
+	case map[string]any:
+		_, hasBps := v["basis_points"]
+		_, hasBpsCamel := v["basisPoints"]
+		_, hasAmount := v["amount"]
+		if (hasBps || hasBpsCamel) && hasAmount {
+			return true
+		}
+		for _, nested := range v {
+			if hasAmbiguousFeeType(nested) {
+				return true
+			}
+		}
+	case []any:
+		for _, nested := range v {
+			if hasAmbiguousFeeType(nested) {
+				return true
+			}
+		}
+	}
+
+	return false
 }
